@@ -617,7 +617,9 @@ func (r *runner) randAdd(w string) []int {
 }
 
 func (r *runner) pickN(l int) int {
-	switch r.rng.Intn(9) {
+	switch r.rng.Intn(10) {
+	case 9:
+		return []int{math.MaxInt32, math.MinInt32, math.MaxInt32 - 1, 1 << 20}[r.rng.Intn(4)]
 	case 0:
 		return -1
 	case 1:
@@ -662,8 +664,8 @@ func (r *runner) sweep(h, per int) {
 			}
 			if wd != "u32" && r.rng.Intn(2) == 0 {
 				n := r.pickN(l)
-				if n < 0 {
-					n = 0
+				if n < 0 || n > 5000 { // the list forms allocate n elements
+					n = l + 2
 				}
 				r.do(&act{Op: "getn", H: h, W: wd, Dir: dir, N: n})
 			}
@@ -807,7 +809,7 @@ func (r *runner) history(univ, nops int) {
 		default:
 			wd := r.widths()[r.rng.Intn(len(r.widths()))]
 			n := r.pickN(r.wld.popcount(h))
-			if n < 0 {
+			if n < 0 || n > 5000 {
 				n = 0
 			}
 			r.do(&act{Op: "getn", H: h, W: wd, Dir: []string{"f", "r"}[r.rng.Intn(2)], N: n})
